@@ -57,6 +57,31 @@ Print Assumptions C01_discipline_prefix_closed.
 Print Assumptions C01_crash_outcomes_exist.
 
 (* ===================== theorems added after the first build (deeper proofs) ===================== *)
+(* ---- any number of crashes and recoveries ---- *)
+(* `reach`: the machine runs disciplined storage operations and may, at any moment, crash with any outcome of the persistence
+   model and come back (restart: the image is the durable namespace, nothing pending, data completeness and the obligation
+   towards the last returned commit unchanged).  After ANY number of such rounds the next crash still leaves a started
+   generation, complete, not older than the last commit that returned in any of the lives. *)
+Theorem C01_crash_safe_across_restarts : forall c img, reach c -> crash c img ->
+  (forall g, ns_meta img = Some g ->
+      openable c img g /\ g < ngen c /\ (forall r, returned c = Some r -> r <= g)) /\
+  (forall r, returned c = Some r -> ns_meta img <> None).
+Proof. exact crash_safe_across_restarts. Qed.
+Theorem C01_restart_reestablishes_invariant : forall c img, Inv c -> crash c img -> Inv (restart c img).
+Proof. exact restart_inv. Qed.
+(* a process that starts on a crash image whose meta.json references only present, complete files (what C01_monitor_sound
+   guarantees of every image) and then obeys the discipline is crash safe at every point again; tie: the storage log of the
+   harness's recovery runs (Index::open, reader, new writer, commit, collection on a materialised image) is fed through
+   `monitor_from (from_image ..)` inside Coq *)
+Theorem C01_recovered_process_crash_safe : forall files complete meta_files o t k img,
+  (forall f, In f meta_files -> In f files /\ In f complete) ->
+  monitor_from (from_image files complete meta_files o) t = true ->
+  let c := fold_left cstep (firstn k t) (from_image files complete meta_files o) in
+  crash c img ->
+  (forall g, ns_meta img = Some g -> openable c img g /\ g < ngen c /\ (forall r, returned c = Some r -> r <= g)) /\
+  (forall r, returned c = Some r -> ns_meta img <> None).
+Proof. exact recovered_process_crash_safe. Qed.
+
 From TV Require Import Storage.Proto Storage.ProtoProofs.
 
 (* EVERY history: the protocol model of the writer (segment finalisation by workers, advance_deletes, save_metas =
@@ -133,6 +158,8 @@ Theorem C01_footer_after_sync_refuted :
   exists s footer, f_dur (prun s (footer_prims [2; 1; 3] [3; 2] [3; 4] footer)) <> f_all s ++ footer.
 Proof. exact footer_after_sync_refuted. Qed.
 
+Print Assumptions C01_crash_safe_across_restarts.
+Print Assumptions C01_recovered_process_crash_safe.
 Print Assumptions C01_terminated_data_is_durable.
 Print Assumptions C01_terminate_makes_everything_durable.
 Print Assumptions C01_atomic_write_is_atomic.
